@@ -28,15 +28,19 @@ FAMILIES = {
     'P1': (1, ['a', 'b'], 3, 3, 5, 1),      # prefix-heavy: every alternative starts with 'a' (nested prefixes)
     'C3': (3, ['a', 'b'], 2, 1, 2, 0),      # three symbols, unit/terminal/empty alternatives (chains)
     'P2': (2, ['a', 'b'], 2, 2, 4, 1),      # two symbols, every alternative starts with 'a'
+    # left-recursion focused: three symbols, base alternatives (empty / 'a') and ONE sequence of 2..3 non-terminals
+    # somewhere in the grammar, under every assignment of names to the roles
+    'R3': (3, ['a'], 2, 3, 2, 0, 'nts'),
 }
 
 
 def cases_cfg(fam, emit=True):
-    numnt, terms, maxalts, maxlen, k, pfx = FAMILIES[fam]
+    numnt, terms, maxalts, maxlen, k, pfx = FAMILIES[fam][:6]
+    pool = FAMILIES[fam][6] if len(FAMILIES[fam]) > 6 else 'all'
     return ('SPECIFICATION Spec\nCHECK_DEADLOCK FALSE\nCONSTANTS\n  NumNT = %d\n  TERMS = {%s}\n'
-            '  MaxAlts = %d\n  MaxLen = %d\n  K = %d\n  PrefixLen = %d\n  Emit = %s\n'
+            '  MaxAlts = %d\n  MaxLen = %d\n  K = %d\n  PrefixLen = %d\n  Pool = "%s"\n  Emit = %s\n'
             'INVARIANT NullableIffEmptySentence\nINVARIANT FirstMatchesLanguage\n' % (
-                numnt, ', '.join('"%s"' % t for t in terms), maxalts, maxlen, k, pfx,
+                numnt, ', '.join('"%s"' % t for t in terms), maxalts, maxlen, k, pfx, pool,
                 'TRUE' if emit else 'FALSE'))
 
 
@@ -312,11 +316,13 @@ def judge_obs(ctx, obs, chunk=30000):
 def explore(ctx, want):
     """Run the whole pipeline; report only violations of property `want`."""
     fams = ['Q2', 'A1', 'P1', 'C3'] if ctx.quick else ['A2', 'A1', 'P1', 'C3', 'P2']
+    if want == 'C03':
+        fams = fams + ['R3']
     total_parses = 0
     ngram = 0
     nobs = 0
     for fam in fams:
-        numnt, terms, maxalts, maxlen, k, _pfx = FAMILIES[fam]
+        numnt, terms, maxalts, maxlen, k, _pfx = FAMILIES[fam][:6]
         r = ctx.tlc('llparser/LLCases.tla', cases_cfg(fam), workers=16, timeout=3600, heap='12g')
         cases = [c for c in r.printed if isinstance(c, dict)]
         if not cases:
